@@ -455,6 +455,7 @@ func propC12(c *Ctx) {
 	// ---- R12.4 ----------------------------------------------------------
 	c.Rule("R12.4", "every cell value is offered to its column's filter; a row is appended only when the fold accepts", 8)
 	checkEveryCellFiltered(c, "R12.4")
+	checkFiltersNeverOverwritten(c, "R12.4")
 	for _, name := range []string{"Integration.processLog", "Integration.processTx"} {
 		fn := w.Fn("dig", name)
 		n := 0
